@@ -1,7 +1,7 @@
 (* The world run is one of the runs of the oracle semantics; and where one pass of the replica repair leads (C10). *)
 From Coq Require Import ZArith NArith Bool List Lia Permutation.
 From Mysync Require Import Gtid.Interval Gtid.GtidSet Base.Prog Base.ProgFacts Base.Config Env.World
-  Procs.NodeOps Procs.Lost Procs.ActiveNodes Procs.Switchover Procs.Repair Proofs.RepairProofs Proofs.NoCrash.
+  Procs.NodeOps Procs.Lost Procs.ActiveNodes Procs.Switchover Procs.Repair Procs.DiskGuard Procs.OfflineMode Proofs.RepairProofs Proofs.NoCrash.
 Import ListNotations.
 Open Scope Z_scope.
 
@@ -159,6 +159,30 @@ Proof.
     specialize (G bs w Hb). destruct (wgo bs w) as [[[[rs|] s1] w1] t1]; [|exact G].
     destruct (wrun_reads _ (k rs) (Hk rs) w1) as [F1 F2]. destruct (wrun (k rs) w1) as [[o w2] t2]. unfold wworld in *. cbn [fst snd] in *.
     destruct G. split; congruence.
+Qed.
+
+(* the world never changes whose server it is *)
+Lemma wstep_host w c : w_host (fst (wstep w c)) = w_host w.
+Proof.
+  destruct c; cbn [wstep]; try reflexivity.
+  - destruct (N.eqb h (w_host w)); [|reflexivity]. destruct (srv_step (w_srv w) s) as [s' r]. reflexivity.
+  - destruct p; reflexivity.
+  - destruct p; try reflexivity. destruct v; reflexivity.
+Qed.
+Fixpoint wrun_host {A} (p : prog A) {struct p} : forall w, w_host (wworld (wrun p w)) = w_host w.
+Proof.
+  destruct p as [a|s|s c k|s bs k]; intros w.
+  - reflexivity.
+  - reflexivity.
+  - cbn [wrun]. pose proof (wstep_host w c) as E. destruct (wstep w c) as [w1 r]. cbn [fst] in E.
+    pose proof (wrun_host _ (k r) w1) as F. destruct (wrun (k r) w1) as [[o w2] tr]. unfold wworld in *. cbn [fst snd] in *. congruence.
+  - rewrite wrun_par.
+    assert (G : forall l w0, let '(_, _, w1, _) := wgo l w0 in w_host w1 = w_host w0).
+    { clear -wrun_host. induction l as [|[h b] r IHl]; intros w0; cbn [wgo]; [reflexivity|].
+      pose proof (wrun_host _ b w0) as F. destruct (wrun b w0) as [[ob w1] tb]. unfold wworld in F. cbn [fst snd] in F.
+      destruct ob as [x|s0]; [|exact F]. specialize (IHl w1). destruct (wgo r w1) as [[[[rs|] s1] w2] t2]; congruence. }
+    specialize (G bs w). destruct (wgo bs w) as [[[[rs|] s1] w1] t1]; [|exact G].
+    pose proof (wrun_host _ (k rs) w1) as F. destruct (wrun (k rs) w1) as [[o w2] t2]. unfold wworld in *. cbn [fst snd] in *. congruence.
 Qed.
 
 (* ---------------------------------------------------------------- C10: where one pass of the replica repair leads *)
@@ -399,4 +423,97 @@ Lemma world_premises_hold : exists ns, observed_as (w_srv w_example) false ns /\
 Proof.
   destruct (observe_world 2%N false w_example eq_refl) as (ns & tr & _ & H). exists ns. split; [exact H|]. split; [cbn; auto|].
   intros [K _]. discriminate K.
+Qed.
+
+(* stability: a replica that is in the canonical state is only looked at *)
+Definition looks_only (c : call) : bool :=
+  match c with Sql _ st => stmt_reads st | DcsGet _ | DcsChildren _ | Now | Sleep _ => true | _ => false end.
+Theorem converged_replica_left_alone cfg env h ns mem rs :
+  ns_ro ns = true -> ns_is_master ns = false -> ns_is_cascade ns = false -> ns_slave ns = Some rs ->
+  rs_source rs = re_master env -> rs_io rs = true -> rs_sql rs = true ->
+  allcalls (fun _ c => looks_only c = true) (repair_slave_node cfg env h ns mem).
+Proof.
+  intros Hro Hm Hc Hs Hsrc Hio Hsql. unfold repair_slave_node. rewrite Hro, Hm, Hc, Hs. cbn [negb bind].
+  rewrite Hsrc, N.eqb_refl. cbn [negb]. unfold repl_state_of. rewrite Hio, Hsql. cbn [andb bind].
+  unfold mark_replication_running. cbn [set_failed_at rm_repair].
+  destruct (assoc h (rm_repair mem)) as [st|]; [|exact I].
+  apply allcalls_bind; [unfold cooldown_passed, now_; qac|]. intros cp. destruct (negb cp); [exact I|].
+  apply allcalls_bind; [unfold replica_status; qac|]. intros [s e]. cbn [fst snd]. destruct e; [exact I|]. destruct s; [|exact I].
+  destruct (slave_ahead _ _); exact I.
+Qed.
+
+(* THE MASTER'S SIDE (C10): "bring the master online, writable".  With no disk-usage report in the health records (disk
+   pressure is not among the dimensions of C10) the disk guard decides by the master's read_only flag alone ... *)
+Lemma guard_fold_no_reports cfg m dcs : (forall h ns, In (h, ns) dcs -> ns_disk ns = None) ->
+  forall acc, fold_left (guard_step cfg m) dcs acc = acc.
+Proof.
+  induction dcs as [|[h ns] r IH]; intros Hd acc; [reflexivity|]. cbn [fold_left].
+  unfold guard_step at 2. rewrite (Hd h ns (or_introl eq_refl)). apply IH. intros h' ns' Hin. apply (Hd h' ns'). right. exact Hin.
+Qed.
+Lemma guard_no_reports cfg m ms dcs : (forall h ns, In (h, ns) dcs -> ns_disk ns = None) ->
+  guard_decide cfg m ms dcs = if negb (ns_ro ms) then GaNone else GaSetWritable.
+Proof.
+  intros Hd. unfold guard_decide. rewrite (guard_fold_no_reports cfg m dcs Hd). cbn. reflexivity.
+Qed.
+
+(* ... and one fault-free pass of repairMasterNode leaves the master writable (read_only = super_read_only = 0) from ANY
+   combination of the two flags; a writable master gets no statement that changes it *)
+Theorem master_repair_unfences cfg env ms w :
+  w_host w = re_master env -> ns_ro ms = s_ro (w_srv w) ->
+  (forall h ns, In (h, ns) (re_state_dcs env) -> ns_disk ns = None) ->
+  wout (wrun (repair_master_node cfg env ms) w) = Done tt /\
+  s_ro (w_srv (wworld (wrun (repair_master_node cfg env ms) w))) = false /\
+  (s_ro (w_srv w) = true -> s_sro (w_srv (wworld (wrun (repair_master_node cfg env ms) w))) = false) /\
+  (s_ro (w_srv w) = false -> w_srv (wworld (wrun (repair_master_node cfg env ms) w)) = w_srv w).
+Proof.
+  intros Hh Hro Hd. unfold repair_master_node, repair_read_only_on_master. rewrite (guard_no_reports cfg _ ms _ Hd), Hro.
+  destruct (s_ro (w_srv w)) eqn:Er; cbn [negb].
+  - unfold exec_. cbn [bind wrun wstep]. rewrite <- Hh, N.eqb_refl. cbn [srv_step wrun wstep bind w_host w_srv]. rewrite N.eqb_refl.
+    cbn [srv_step wrun wstep bind w_host w_srv wout wworld fst snd with_ro s_ro s_sro].
+    repeat split; try reflexivity. intros K; discriminate K.
+  - cbn [bind wrun wstep]. rewrite <- Hh, N.eqb_refl. cbn [srv_step wrun wstep bind w_host w_srv wout wworld fst snd].
+    repeat split; try reflexivity; auto. intros K; discriminate K.
+Qed.
+
+(* the master is brought online: a master that is offline and not marked for recovery is set online by one pass *)
+Theorem master_offline_repair_brings_online h ns w :
+  w_host w = h -> ns_offline ns = s_offline (w_srv w) ->
+  wout (wrun (repair_master_offline h ns) w) = Done tt /\
+  s_offline (w_srv (wworld (wrun (repair_master_offline h ns) w))) = false /\
+  s_ro (w_srv (wworld (wrun (repair_master_offline h ns) w))) = s_ro (w_srv w).
+Proof.
+  intros Hh Hoff. unfold repair_master_offline, is_recovery_needed, exec_. rewrite Hoff.
+  destruct (s_offline (w_srv w)) eqn:Eo.
+  - cbn [bind wrun wstep]. rewrite <- Hh, N.eqb_refl. cbn [srv_step wrun wstep bind w_host w_srv wout wworld fst snd with_offline s_offline s_ro].
+    auto.
+  - cbn [wrun wout wworld fst snd]. auto.
+Qed.
+
+(* THE FIXED POINT (C10, "repeated manager iterations"): the canonical state of a replica is stable - a further pass over
+   a server that is a read-only running replica of the recorded master leaves the server exactly as it is.  Together
+   with [replica_repair_converges]: one pass reaches the canonical state, every later pass stays in it. *)
+Lemma looks_only_reads c : looks_only c = true -> reads_only c = true.
+Proof. destruct c; cbn; auto. Qed.
+
+Theorem replica_fixed_point cfg env h ns mem w :
+  w_host w = h -> observed_as (w_srv w) false ns -> replica_ok (re_master env) (w_srv w) ->
+  w_srv (wworld (wrun (repair_slave_node cfg env h ns mem) w)) = w_srv w.
+Proof.
+  intros Hh (Hping & Hro & Hoff & Hcasc & Hmaster & Hslave) (Kro & c & Kc & Ksrc & Kio & Ksql).
+  apply wrun_reads. eapply allcalls_impl; [intros s c0; apply looks_only_reads|].
+  unfold status_of in Hslave. rewrite Kc in Hslave, Hmaster.
+  eapply converged_replica_left_alone; [rewrite Hro; exact Kro | exact Hmaster | exact Hcasc | exact Hslave | | | ]; cbn; assumption.
+Qed.
+
+Theorem replica_repair_twice cfg env h ns mem w ns2 mem2 :
+  w_host w = h -> h <> re_master env -> observed_as (w_srv w) false ns -> no_repl_error (w_srv w) -> rm_repair mem = [] ->
+  let w1 := wworld (wrun (repair_slave_node cfg env h ns mem) w) in
+  observed_as (w_srv w1) false ns2 ->
+  replica_ok (re_master env) (w_srv w1) /\
+  w_srv (wworld (wrun (repair_slave_node cfg env h ns2 mem2) w1)) = w_srv w1.
+Proof.
+  intros Hh Hne Hobs Herr Hmem w1 Hobs2.
+  assert (Hh1 : w_host w1 = h) by (unfold w1; rewrite wrun_host; exact Hh).
+  destruct (replica_repair_converges cfg env h ns mem w Hh Hne Hobs Herr Hmem) as [_ Hok]. fold w1 in Hok.
+  split; [exact Hok|]. apply replica_fixed_point; assumption.
 Qed.
